@@ -18,8 +18,8 @@ fn one_byte_table(eci: u32, oracle: fn(u8) -> Option<u32>) {
             assert!(got[0] == e[0]);
             assert!(n < 2 || got[1] == e[1]);
             assert!(n < 3 || got[2] == e[2]);
-            kani::cover!(n == 3);
-            kani::cover!(b == 0xFF);
+            kani::cover!(n >= 2);
+            kani::cover!(b >= 0xE0);
         }
         None => {
             assert!(r == Err(DataDecodingError::CharsetError));
